@@ -383,7 +383,8 @@ def item? (s : String) : Option Item :=
 
 /-- One step of a selection program:
   `s,a,b,c` frame slice   `i,k` integer index   `c,x0,x1,y0,y1` `crop_by_pixels`
-  `g,<item>,…` tuple index with items `k`, `a:b` or `a:b:c`. -/
+  `g,<item>,…` tuple index with items `k`, `a:b` or `a:b:c`
+  `z,s0,s1,st` `ImageStack.from_dataset(src, name, s0, s1, st)` on the same pages and ROI. -/
 def step (s : Stack) (op : String) : Option (Except Err Stack) :=
   match op.splitOn "," with
   | ["s", a, b, c] => do
@@ -398,6 +399,9 @@ def step (s : Stack) (op : String) : Option (Except Err Stack) :=
   | "g" :: items => do
     let items ← items.mapM item?
     some (s.getitemTuple items)
+  | ["z", a, b, c] => do
+    let a ← int? a; let b ← int? b; let c ← int? c
+    some (.ok { s with s0 := a, s1 := b, st := c })
   | _ => none
 
 def runProg : Stack → List String → Option (Except Err Stack)
@@ -429,6 +433,7 @@ def showOuts (l : List (OutPage Int)) : String := "[" ++ ";".intercalate (l.map 
   `c18.cast <u8|u16|f32> <clip T/F> [p/q,…]`   `cast_image` on a flat image: `ok [p/q,…]` or the error name
   `c18.encode a b`        the DateTime string as a list of character codes
   `c18.decode [codes]`    `_get_page_timestamps`: `a:b` or the error name
+  `c18.roundtrip a b`     write the tag for `(a, b)`, then read it: `a:b` or the error name
   `c18.legacy [s…] [e…]`  `_frame_timestamps_from_exposure_timestamps`
   `c18.export <h> <w> [starts] [stops] [expStops] <legacy T/F> <again T/F> op…`
         run the selection program on a fresh stack over these pages (raw pixels = identifiers), export;
@@ -446,6 +451,11 @@ def handle : List String → Option String
   | ["c18.decode", s] => do
     let s ← chars? s
     match decodeRange s with
+    | .ok (a, b) => some (toString a ++ ":" ++ toString b)
+    | .error e => some e.show
+  | ["c18.roundtrip", a, b] => do
+    let a ← int? a; let b ← int? b
+    match decodeRange (encodeRange a b) with
     | .ok (a, b) => some (toString a ++ ":" ++ toString b)
     | .error e => some e.show
   | ["c18.legacy", s, e] => do
